@@ -63,7 +63,7 @@ def cmd_setup(a):
         mods = sorted(glob.glob(os.path.join(vlib.SPEC, "*.tla")) + glob.glob(os.path.join(vlib.SPEC, "mc", "*.tla")) +
                       glob.glob(os.path.join(vlib.SPEC, "trace", "*.tla")))
         def sany(m):
-            r = subprocess.run(["java", "-DTLA-Library=" + vlib.LIBPATH, "-cp", vlib.TLA_CP, "tla2sany.SANY", m],
+            r = subprocess.run(["java", "-DTLA-Library=" + vlib.LIBPATH, "-Djava.io.tmpdir=" + vlib.java_tmp(), "-cp", vlib.TLA_CP, "tla2sany.SANY", m],
                                stdout=subprocess.PIPE, stderr=subprocess.STDOUT, text=True, cwd=os.path.dirname(m))
             ok = r.returncode == 0 and "rror" not in r.stdout.replace("errors", "")
             return m, ok, r.stdout[-800:]
